@@ -73,6 +73,11 @@ def run_hp(case, ctx):
         ctx.label(f"setup-failed:{type(e).__name__}")
         return
     labels = set()
+    try:
+        receivers = [a.clone() for a in pop]  # agents as they were built, before any mutation
+    except Exception as e:  # noqa: BLE001
+        ctx.label(f"setup-failed:{type(e).__name__}")
+        return
     for rnd, op in enumerate(case["rounds"]):
         if op[0] == "select" and len(pop) > 1:
             from agilerl.hpo.tournament import TournamentSelection
@@ -96,6 +101,31 @@ def run_hp(case, ctx):
                 labels.add("learn-step-before-a-mutation")
             except Exception as e:  # noqa: BLE001 - learning is C02's / C20's promise
                 ctx.label(f"learn-raised:{type(e).__name__}")
+            continue
+        if op[0] == "handover":
+            # the mutated population is handed over through checkpoints INTO agents that were built before the mutation (what
+            # tournament_selection_and_mutation does for the other processes of a distributed run, and what resuming does)
+            import os
+            import shutil
+            import tempfile
+
+            d = tempfile.mkdtemp(prefix="vpc06_")
+            try:
+                new = []
+                for j, a in enumerate(pop):
+                    path = os.path.join(d, f"a{j}.pt")
+                    a.save_checkpoint(path)
+                    b = receivers[j % len(receivers)].clone(index=a.index)
+                    b.load_checkpoint(path)
+                    new.append(b)
+                pop = new
+                labels.add("handed-over-through-checkpoints")
+            except Exception as e:  # noqa: BLE001 - saving / loading is C07's promise
+                ctx.label(f"handover-raised:{type(e).__name__}")
+                continue
+            finally:
+                shutil.rmtree(d, ignore_errors=True)
+            _check_lrs(ctx, pop, algo, rnd, where="/after_checkpoint_handover")
             continue
         if op[0] == "clone":
             try:
@@ -153,20 +183,7 @@ def run_hp(case, ctx):
                 labels.add("int-param")
             if (p[4] == "int") != (isinstance(p[0], int) and isinstance(p[1], int)):
                 labels.add("bound-type-differs-from-dtype")
-        # independent of what the registry says: every optimizer the agent steps must run with the agent's own current
-        # learning rate for the networks it updates (critic optimizers <-> lr_critic, actor optimizers <-> lr_actor, else lr)
-        for i, a in enumerate(pop):
-            two = hasattr(a, "lr_actor") and hasattr(a, "lr_critic")
-            for oname, opt in T.flat_optimizers(a).items():
-                attr = ("lr_critic" if "critic" in oname else "lr_actor") if two else "lr"
-                want = getattr(a, attr)
-                bad = [g["lr"] for g in opt.param_groups if g["lr"] != want]
-                if bad:
-                    ctx.fail(f"C06/optimizer_steps_with_other_lr_than_agent/{attr}",
-                             "an optimizer steps with a learning rate that is not the agent's current value for the networks it updates",
-                             algo=algo, agent=i, optimizer=oname, group_lr=bad[0], agent_value=want, attr=attr, mut=str(a.mut), round=rnd)
-                    break
-        # a learn step still works with the mutated values (the agent "subsequently uses" them)
+        _check_lrs(ctx, pop, algo, rnd)
     for l in labels:
         ctx.label(l)
     ctx.label(f"algo={algo}")
@@ -176,6 +193,23 @@ def run_hp(case, ctx):
     ctx.label("shared-config" if case["shared"] else "own-config")
     if ("clipped" in labels or "int-param" in labels) and "lr-mutated" in labels:
         ctx.nontrivial({"a": algo, "p": params, "s": case["shared"], "n": n, "r": [o[0] for o in case["rounds"]]})
+
+
+def _check_lrs(ctx, pop, algo, rnd, where=""):
+    if True:
+        # independent of what the registry says: every optimizer the agent steps must run with the agent's own current
+        # learning rate for the networks it updates (critic optimizers <-> lr_critic, actor optimizers <-> lr_actor, else lr)
+        for i, a in enumerate(pop):
+            two = hasattr(a, "lr_actor") and hasattr(a, "lr_critic")
+            for oname, opt in T.flat_optimizers(a).items():
+                attr = ("lr_critic" if "critic" in oname else "lr_actor") if two else "lr"
+                want = getattr(a, attr)
+                bad = [g["lr"] for g in opt.param_groups if g["lr"] != want]
+                if bad:
+                    ctx.fail(f"C06/optimizer_steps_with_other_lr_than_agent/{attr}{where}",
+                             "an optimizer steps with a learning rate that is not the agent's current value for the networks it updates",
+                             algo=algo, agent=i, optimizer=oname, group_lr=bad[0], agent_value=want, attr=attr, mut=str(a.mut), round=rnd)
+                    break
 
 
 @st.composite
@@ -210,6 +244,7 @@ def hp_strategy(draw, tier):
                                      st.tuples(st.just("mutate"), st.integers(0, 999)),
                                      st.tuples(st.just("select"), st.integers(0, 999)),
                                      st.tuples(st.just("learn"), st.integers(0, 999)),
+                                     st.tuples(st.just("handover")),
                                      st.tuples(st.just("clone"))),
                            min_size=1, max_size=5 if tier == "quick" else 10))
     return {"algo": algo, "params": params, "pop": n, "init": init, "shared": draw(st.booleans()),
